@@ -38,9 +38,12 @@ type Obligation struct {
 	Ms     int64
 	Model  string
 	Script string
-	Carved bool   // a known-finding carve-out is in force
-	FullResult string // result without the carve-out (when Carved)
-	Finding *KnownFinding
+	Carved   bool            // a known-finding carve-out is in force
+	Findings []*KnownFinding // findings attached to this obligation
+	HypOf    []*KnownFinding // HypOf[i] is the finding that contributed Hyps[i]
+	DropRes  []string        // DropRes[i]: result when Hyps[i] is left out (is finding i still needed?)
+	Splits   []*Term         // case split applied when the unsplit query is not decided quickly
+	NSplit   int             // number of split cases actually solved
 }
 
 // Enc accumulates the verification conditions of one function under contract.
@@ -56,6 +59,7 @@ type Enc struct {
 	unsupported []string
 	epochs int
 	inputs []inputVar // model-relevant inputs (for replay / reporting)
+	splits []*Term    // case-split conditions (entry state) for heavy obligations
 }
 
 type inputVar struct {
@@ -101,6 +105,9 @@ func (enc *Enc) oblige(kind, where, clause string, tags []string, pc, goal *Term
 		Name:   fmt.Sprintf("%s:%s#%d", enc.name, kind, enc.nobl[kind]),
 		Func:   enc.name, Kind: kind, Tags: tags, Where: where, Clause: clause,
 		NItems: len(enc.items), Goal: Implies(pc, goal), enc: enc,
+	}
+	if strings.HasPrefix(kind, "ensures") || strings.HasPrefix(kind, "loop") {
+		o.Splits = enc.splits
 	}
 	enc.obls = append(enc.obls, o)
 	return o
@@ -163,7 +170,14 @@ func (enc *Enc) postHavocFacts(name string, t *Term) {
 	}
 }
 
-func (s *State) Set(name string, t *Term) { s.m[name] = t }
+func (s *State) Set(name string, t *Term) {
+	if len(t.Args) > 0 {
+		if so, ok := s.enc.w.heapSorts[name]; ok {
+			t = s.enc.define("h_"+name, so, t)
+		}
+	}
+	s.m[name] = t
+}
 
 func (s *State) havocAll() {
 	s.enc.epochs++
